@@ -27,6 +27,7 @@ PARITY = [
     ("TriangularFactoredDefiniteMatrix", "factor -> -factor", {"self._factor": 1}, 0, 1),
     ("DenseDefiniteMatrix", "array -> -array", {"self._array": 1, "self._sign": 1}, 1, 1),
     ("DensePositiveDefiniteProductMatrix", "rect_matrix -> -rect_matrix", {"self._rect_matrix": 1}, 0, 1),
+    ("SoftAbsRegularizedPositiveDefiniteMatrix", "symmetric_array -> -symmetric_array (softabs is even)", {"self.unreg_eigval": 1, "self.eigval": 0, "self.eigvec": 0, "self._softabs_coeff": 0}, 0, 1),
     ("PositiveDefiniteLowRankUpdateMatrix", "(sign, inner) -> (-sign, -inner)", {"self._sign": 1, "self.inner_pos_def_matrix": 1, "self.inner_symmetric_matrix": 1, "self.inner_square_matrix": 1, "self._capacitance_matrix": 1}, 0, 0),
     ("PositiveDefiniteLowRankUpdateMatrix", "factor_matrix -> -factor_matrix", {"self.factor_matrix": 1, "self.left_factor_matrix": 1, "self.right_factor_matrix": 1}, 0, 1),
 ]
@@ -38,9 +39,10 @@ DEGREE = [
     ("TriangularFactoredDefiniteMatrix", "factor -> a*factor", {"self._factor": 1}, 2),
     ("DenseDefiniteMatrix", "array -> a*array", {"self._array": 1}, 1),
     ("DensePositiveDefiniteProductMatrix", "rect_matrix -> a*rect_matrix", {"self._rect_matrix": 1}, 2),
+    ("SoftAbsRegularizedPositiveDefiniteMatrix", "(symmetric_array, softabs_coeff) -> (a*symmetric_array, softabs_coeff/a)", {"self.unreg_eigval": 1, "self.eigval": 1, "self.eigvec": 0, "self._softabs_coeff": -1}, 1),
 ]
 
-VECTOR_CLASSES = ["ScaledIdentityMatrix", "DiagonalMatrix", "TriangularFactoredDefiniteMatrix", "DenseDefiniteMatrix", "DensePositiveDefiniteProductMatrix", "PositiveDefiniteLowRankUpdateMatrix"]
+VECTOR_CLASSES = ["ScaledIdentityMatrix", "DiagonalMatrix", "TriangularFactoredDefiniteMatrix", "DenseDefiniteMatrix", "DensePositiveDefiniteProductMatrix", "PositiveDefiniteLowRankUpdateMatrix", "SoftAbsRegularizedPositiveDefiniteMatrix"]
 
 
 def _name(t, mode):
@@ -52,7 +54,7 @@ def _name(t, mode):
 
 
 def rule_r1(rep, program: Program, prop=PROP):
-    r = rep.rule("R1", "parity of grad_log_abs_det / grad_quadratic_form_inv under each sign-flip symmetry of the parametrisation", floor=14)
+    r = rep.rule("R1", "parity of grad_log_abs_det / grad_quadratic_form_inv under each sign-flip symmetry of the parametrisation", floor=16)
     L = Lattice("parity")
     for cls, sym, atoms, m_par, p_par in PARITY:
         k = program.cls(cls)
@@ -70,7 +72,7 @@ def rule_r1(rep, program: Program, prop=PROP):
 
 
 def rule_r2(rep, program: Program):
-    r = rep.rule("R2", "homogeneity degree of the gradients in the defining parameter and in the vector", floor=14)
+    r = rep.rule("R2", "homogeneity degree of the gradients in the defining parameter and in the vector", floor=18)
     L = Lattice("degree")
     for cls, sc, atoms, kdeg in DEGREE:
         k = program.cls(cls)
@@ -92,6 +94,49 @@ def rule_r2(rep, program: Program):
     return r
 
 
+def rule_r3(rep, program: Program):
+    """Block-diagonal matrices: log|det| and v^T M^-1 v are sums over blocks, so the gradient with
+    respect to the tuple of block parameters is the tuple of the blocks' own gradients, the
+    quadratic-form one evaluated on the matching part of the vector."""
+    import ast
+
+    from ..model import norm
+
+    r = rep.rule("R3", "block-diagonal gradients: tuple over all blocks of the block's own gradient, the vector split conformally", floor=2)
+    k = program.cls("PositiveDefiniteBlockDiagonalMatrix")
+    for meth in ("grad_log_abs_det", "grad_quadratic_form_inv"):
+        f = k.resolve(meth)
+        if f is None:
+            raise AnalysisError(f"{k.name}.{meth} not found")
+        rets = [n for n in ast.walk(f.node) if isinstance(n, ast.Return) and n.value is not None]
+        good = None
+        for rt in rets:
+            v = rt.value
+            if not (isinstance(v, ast.Call) and norm(v.func) == "tuple" and len(v.args) == 1 and isinstance(v.args[0], (ast.GeneratorExp, ast.ListComp))):
+                continue
+            g = v.args[0]
+            gen = g.generators[0]
+            if len(g.generators) != 1 or gen.ifs:
+                continue
+            if meth == "grad_log_abs_det":
+                ok = isinstance(gen.target, ast.Name) and norm(gen.iter) in ("self._blocks", "self.blocks") and norm(g.elt) == f"{gen.target.id}.grad_log_abs_det"
+            else:
+                vec = f.params[1]
+                ok = (
+                    isinstance(gen.target, ast.Tuple) and len(gen.target.elts) == 2
+                    and isinstance(gen.iter, ast.Call) and norm(gen.iter.func) == "zip" and len(gen.iter.args) == 2
+                    and norm(gen.iter.args[0]) in ("self._blocks", "self.blocks")
+                    and norm(gen.iter.args[1]).replace(" ", "") in (f"self._split({vec},axis=0)", f"self._split({vec},0)", f"self._split({vec})")
+                    and norm(g.elt) == f"{norm(gen.target.elts[0])}.grad_quadratic_form_inv({norm(gen.target.elts[1])})"
+                )
+            if ok:
+                good = rt
+        r.inst({"method": f.qualname, "delegates per block": good is not None, "returns": [norm(x.value)[:80] for x in rets]})
+        if good is None:
+            r.violate(PROP, f"{f.qualname}:not-per-block", f"{f.qualname} does not return, for every block in order, that block's own {meth} (with the conformal part of the vector): the gradient no longer has the structure of the parameter (tuple of blocks) or mixes blocks", node=f.node, file=f.file)
+    return r
+
+
 def run(rep, program: Program, tier: str) -> None:
     rep.explanation = (
         "Each gradient expression of the differentiable matrix classes is evaluated in Z2 (parity "
@@ -104,3 +149,4 @@ def run(rep, program: Program, tier: str) -> None:
     ]
     rule_r1(rep, program)
     rule_r2(rep, program)
+    rule_r3(rep, program)
